@@ -645,6 +645,23 @@ def stage_load_image(ctx, tmp):
             ["%d%%nat" % c for c in ([ch] if isinstance(ch, int) else ch)])
         exprs.append("loaded_sim %s (load_channels QO %s %s)" % (got, rl, cl))
         metas.append(dict(meta, what="channels"))
+        if im is not None and k % 3 == 0:
+            # what a script does next: edit the loaded image in place; a later load of the same (unchanged) file must still
+            # return the file's pixels, and load_average over it twice their mean
+            first = im.values.copy()
+            try:
+                im.values[...] = im.values * 0.5 - 3.0
+                im -= 1.0
+            except Exception:  # noqa  (read-only results are fine)
+                pass
+            with warnings.catch_warnings():
+                warnings.simplefilter("ignore")
+                again = hp.load_image(path, spacing=sp, channel=ch, name=name, medium_index=1.33)
+            ctx.explored += 1
+            ctx.count("load_image:reload-after-edit")
+            if again.values.shape != first.shape or not np.array_equal(again.values, first):
+                ctx.violation("load_image:reload-after-edit", "load_image returns other pixels for an unchanged file after the image "
+                              "returned by an earlier load was edited in place", dict(meta, first=first.tolist(), again=again.values.tolist()))
         if im is not None:
             sx, sy = (sp, sp) if not isinstance(sp, tuple) else sp
             # exact for dyadic spacings; i*0.3 rounds in the last bit
